@@ -118,13 +118,14 @@ theorem C09_neighbors_spec (g : Grid) (hi : Inv g) (cells : List Coord) (hnd : c
 
 /-- **`get_cell_list_contents` / `iter_cell_list_contents` for arbitrary integer coordinates** (they index
     `self._grid[x][y]` directly): in-grid coordinates are read as they are — the answer is `cellsContents` of the
-    list, specified by `C09_neighbors_spec` —; whenever the call returns, every coordinate denoted a cell of the
-    grid (Python's aliasing of `-size .. -1`); a coordinate beyond that raises IndexError and nothing is returned -/
+    list, specified by `C09_neighbors_spec` —; whenever the call returns, the cells read are, position by position, the
+    cells the coordinates denote under Python's aliasing of `-size .. -1` (`Grid.aliasCell`: a negative index counts from the
+    end), all of them cells of the grid; a coordinate beyond that raises IndexError and nothing is returned -/
 theorem C09_cell_list_contents_any_integers (g : Grid) (hw : 0 < g.w) (hh : 0 < g.h) (ps : List Coord) :
     ((∀ p ∈ ps, g.inGrid p) → g.rawCells ps = .ok ps) ∧
-    (∀ cs, g.rawCells ps = .ok cs → cs.length = ps.length ∧ ∀ c ∈ cs, g.inGrid c) ∧
+    (∀ cs, g.rawCells ps = .ok cs → cs = ps.map g.aliasCell ∧ cs.length = ps.length ∧ ∀ c ∈ cs, g.inGrid c) ∧
     ((∃ p ∈ ps, p.1 < -g.w ∨ g.w ≤ p.1 ∨ p.2 < -g.h ∨ g.h ≤ p.2) → ∃ e, g.rawCells ps = .error e) :=
-  ⟨rawCells_inGrid g ps, rawCells_ok g ps, rawCells_error g hw hh ps⟩
+  ⟨rawCells_inGrid g ps, fun cs h => ⟨rawCells_ok_alias g ps cs h, rawCells_ok g ps cs h⟩, rawCells_error g hw hh ps⟩
 
 /-- so the neighbours of a query are the agents standing on cells in range -/
 theorem C09_get_neighbors_exact (g : Grid) (hi : Inv g) (hw : 0 < g.w) (hh : 0 < g.h) (k : NKey) (l : List Coord)
@@ -155,17 +156,37 @@ example : runQ (init 4 4 false false 23) []
     [.op (.place 0 (1, 1)), .op (.place 1 (1, 2)), .nbrs ⟨(1, 1), true, false, 1⟩, .op (.move 1 (3, 3)), .nbrs ⟨(1, 1), true, false, 1⟩]
     = [.ok [1], .ok []] := by rfl
 
-/-- **an agent occupies its cell whatever its truth value** (round 4, mutation C09-3): agents are ordinary objects, a subclass may
-    give them `__bool__` / `__len__` (a dead animal, a depot with an empty stock).  In any history in which agents become falsy or
-    truthy (`TQ.truth`) between mutating calls and cached `get_neighbors` queries, whatever set `fz` of agents is falsy at the
-    start, every query returns what a fresh computation returns on the grid as it is at that moment, in the history with the
-    truth changes left out — the agents standing in range (`C09_get_neighbors_exact`), falsy or not.  (The code recognises an
-    empty cell by comparison with `default_val()`; the one reader that uses truthiness instead is `grid.agents`, see below.) -/
+/-- **an agent occupies its cell whatever its truth value** (round 4, mutation C09-3; review 3, H3): agents are ordinary objects, a
+    subclass may give them `__bool__` / `__len__` (a dead animal, a depot with an empty stock).  The readers of the model take the
+    emptiness test as a parameter (`cellsContentsBy`, Model/LegacyTruth.lean: comparison with the empty value, or truthiness) and
+    `runT` reads the contents with the test that the *generated* table names for mesa/space.py (`contentsTest`), handing it the set
+    of falsy agents.  In any history in which agents become falsy or truthy (`TQ.truth`) between mutating calls and cached
+    `get_neighbors` queries, whatever set `fz` of agents is falsy at the start, every query returns what a fresh computation returns
+    on the grid as it is at that moment, in the history with the truth changes left out — the agents standing in range
+    (`C09_get_neighbors_exact`), falsy or not.  A reader that goes by truthiness changes the table and breaks this obligation
+    (`C09_truthiness_test_loses_falsy_agents` says what it would return instead). -/
 theorem C09_neighbors_whatever_truth_value (w h : Int) (hw : 1 ≤ w) (hh : 1 ≤ h) (torus multi : Bool) (cutoff : Nat)
     (fz : Falsy) (hist : List TQ) (hok : HistOkQ (init w h torus multi cutoff) (eraseTruth hist)) :
     runT (init w h torus multi cutoff) [] fz hist = freshQ (init w h torus multi cutoff) (eraseTruth hist) := by
   rw [runT_eq_runQ]
   exact C09_cached_neighbors_with_moves w h hw hh torus multi cutoff _ hok
+
+/-- **the readers of the code compare with the empty value** (table regenerated from mesa/space.py on every run by probing the
+    four classes with a falsy agent), **and that test never consults a truth value**: for every grid state, every set of falsy
+    agents and every list of cells the contents read are `cellsContents` (specified by `C09_neighbors_spec`), also through the raw
+    indexing of the hex readers -/
+theorem C09_contents_read_by_comparison_with_default (g : Grid) (fz : Falsy) (cells : List Coord) :
+    contentsTest = .eqDefault ∧ cellsContentsBy .eqDefault fz g cells = cellsContents g cells ∧
+    cellsContentsT fz g cells = cellsContents g cells ∧ hexNeighborsT fz g cells = hexNeighbors g cells :=
+  ⟨contentsTest_eq, cellsContentsBy_eqDefault fz g cells, cellsContentsT_eq fz g cells, hexNeighborsT_eq fz g cells⟩
+
+/-- **what the other test would do** (the refutation of "truthiness is as good"): on a single-occupancy grid a reader that writes
+    `if cell` returns exactly the occupants that are not falsy — so it differs from the code on every falsy agent in range —; on a
+    MultiGrid, whose cells are lists, the two tests agree -/
+theorem C09_truthiness_test_loses_falsy_agents (g : Grid) (fz : Falsy) (cells : List Coord) :
+    (g.multi = false → ∀ a, a ∈ cellsContentsBy .truthy fz g cells ↔ a ∈ cellsContents g cells ∧ a ∉ fz) ∧
+    (g.multi = true → cellsContentsBy .truthy fz g cells = cellsContents g cells) :=
+  ⟨fun hm a => mem_cellsContentsBy_truthy_single fz g hm cells a, fun hm => cellsContentsBy_truthy_multi fz g hm cells⟩
 
 /-- agent 1 stands next to agent 0 and is made falsy, then truthy again: it is a neighbour all along -/
 example : runT (init 4 4 false false 23) [] []
@@ -173,10 +194,9 @@ example : runT (init 4 4 false false 23) [] []
      .q (.nbrs ⟨(1, 1), true, false, 1⟩)] = [.ok [1], .ok [1]] := by rfl
 /-- `setTruth` keeps the set of falsy agents: falsy after `truth a False`, truthy after `truth a True`, the others unchanged -/
 example (fz : Falsy) (a x : Aid) (b : Bool) : x ∈ setTruth fz a b ↔ (x = a ∧ b = false) ∨ (x ≠ a ∧ x ∈ fz) := mem_setTruth fz a b x
-/-- the truth value is not idle in the model: `grid.agents` of a SingleGrid (`if not entry: continue`) leaves a falsy occupant out,
-    of a MultiGrid it does not -/
-example : (run (init 3 3 false false 8) [.place 0 (1, 1), .place 1 (0, 2)]).agentsListT [0] = [1] := by decide
-example : (run (init 3 3 false true 8) [.place 0 (1, 1), .place 1 (0, 2)]).agentsListT [0] = [1, 0] := by decide
+/-- the truth value is not idle in the model: the truthiness instance of the reader leaves the falsy agent 0 out, the code's keeps it -/
+example : cellsContentsBy .truthy [0] (run (init 3 3 false false 8) [.place 0 (1, 1), .place 1 (0, 2)]) [(0, 2), (1, 1)] = [1] := by decide
+example : cellsContentsBy .eqDefault [0] (run (init 3 3 false false 8) [.place 0 (1, 1), .place 1 (0, 2)]) [(0, 2), (1, 1)] = [1, 0] := by decide
 
 /-- **hex `get_neighbors` / `iter_neighbors`**: for a centre in the grid every cell of the neighbourhood is a cell
     of the grid, so the raw indexing of `iter_cell_list_contents` reads exactly those cells, and the agents returned
